@@ -367,8 +367,20 @@ class Obj:
 
 
 _state = {'counter': 0, 'plan': {}}
+class CollectedErrors(Exception):
+    """a user exception whose instances are falsy (a container of collected errors, raised empty): still an exception"""
+    def __len__(self):
+        return 0
+
+
+class OddStr(Exception):
+    """a user exception whose str() is odd: empty, with a newline and format characters"""
+    def __str__(self):
+        return ''
+
+
 EXC = [ValueError, TypeError, KeyError, RuntimeError, ZeroDivisionError, AttributeError, RecursionError, StopIteration, AssertionError,
-       NotImplementedError, OSError, MemoryError]
+       NotImplementedError, OSError, MemoryError, CollectedErrors, OddStr]
 CLASSES = {}
 
 
@@ -795,7 +807,7 @@ def failures_section(tier, seed):
         sz = size(t)
         cases.append((t, {}, set()))
         for k in range(sz):
-            for e in (range(len(EXC)) if tier == 'thorough' else [0, 1, EXC.index(RecursionError), rng.randrange(2, len(EXC))]):
+            for e in (range(len(EXC)) if tier == 'thorough' else [0, 1, EXC.index(RecursionError), EXC.index(CollectedErrors), rng.randrange(2, len(EXC))]):
                 cases.append((t, {k: ('raises', e)}, set()))
                 if k > 0:
                     cases.append((t, {k: ('raises', e)}, {k}))          # the faulty value under a trailing comment
